@@ -62,9 +62,13 @@ def build_module(ctx, case, ifaces, template=None, extra_cfg=None, extra_files=N
         files["hdr/boiler.txt"] = "// Copyright Example Corp.\n// All rights reserved.\n"
         td["boilerplate-file"] = "hdr/boiler.txt"
     per_iface = None
+    recparent_td = None
     if td:
         if case.get("td_level") == "iface":   # the same options written on every interface instead of at the top level
             per_iface = {"config": {"template-data": td}}
+        elif case.get("td_level") == "recparent" and sdir != ".":
+            # written in the config of a recursive package above the (explicitly listed) source package: reaches its listed interfaces too
+            recparent_td = td
         else:
             cfg["template-data"] = td
     if extra_cfg:
@@ -75,6 +79,8 @@ def build_module(ctx, case, ifaces, template=None, extra_cfg=None, extra_files=N
         cfg["dir"] = sdir if case["dir_spelling"] == "relative" else "./" + sdir + "/"
     tdn = case.get("td_by_name") or {}
     cfg["packages"] = {srcpath: {"interfaces": {i["name"]: ({"config": {"template-data": tdn[i["name"]]}} if tdn.get(i["name"]) else per_iface) for i in ifaces}}}
+    if recparent_td is not None:
+        cfg["packages"][MOD] = {"config": {"recursive": True, "template-data": recparent_td}}
     if case.get("td_pkg_cfg"):     # arbitrary settings at package level
         cfg["packages"][srcpath].setdefault("config", {}).update(case["td_pkg_cfg"])
     if case.get("iface_cfg"):      # arbitrary settings on every interface
